@@ -1,4 +1,6 @@
 import Qentem.Proofs.JsonAllOrNothing
+import Qentem.Proofs.JsonPrefix
+import Qentem.Proofs.JsonPrefixTokens
 /-! C07 — JSON parsing is all-or-nothing. -/
 namespace Qentem.Props.C07
 open Qentem.Json
@@ -23,5 +25,137 @@ theorem accepted_is_complete (d : Deps) (c : Array Nat) (v : JVal) (h : parse d 
   rcases Qentem.Json.parse_all_or_nothing d c v h with h1 | ⟨h2, _⟩
   · exact absurd h1 hv
   · exact h2
+
+/-! ### The "in particular" clause: trailing garbage and proper prefixes
+
+`JDoc` (Model/JsonGrammar.lean) is an RFC 8259 document with explicit whitespace layout, `print` its
+text.  `WF d doc`: whitespace runs are whitespace and every string body / numeral meets the reading
+contract of the sub-routine (`StrSpec`, `NumSpec`).  `TS d doc` ("truncation-safe"): every string
+body (member names too) and numeral meets the *truncation* contract: `UnEscape` on a body cut by the
+end of the buffer returns 0 or the whole remaining length (`StrTrunc`); `StringToNumber` on a cut
+numeral returns NotANumber or ends at the end of the buffer (`NumTrunc`).  Both are discharged
+below for the linked sub-routines. -/
+
+/-- A well-formed document, surrounded by any whitespace, followed by a unit `x` that is not
+whitespace (and then anything at all) is rejected.  No side condition for arrays, objects, strings
+and keywords.  For a top-level numeral the next unit must not be able to extend the token (`12`
+followed by `3` is the document `123`): whitespace in between, or `x` one of `, ] }`. -/
+theorem trailing_rejected (d : Deps) (hd : DepsSafe d) (doc : JDoc) (hwf : WF d doc) (wsL wsR : Ws)
+    (hL : AllWs wsL) (hR : AllWs wsR) (x : Nat) (t : List Nat) (hx : isWs x = false)
+    (hok : doc.isNum = false ∨ wsR ≠ [] ∨ isDelim x = true)
+    (hsz : (wsL ++ doc.print ++ wsR ++ x :: t).length < 2 ^ 32) :
+    parse d (wsL ++ doc.print ++ wsR ++ x :: t).toArray = .ok .undef :=
+  Qentem.Json.trailing_rejected d hd doc hwf wsL wsR hL hR x t hx hok hsz
+
+/-- The container form of the property text: a valid array/object document followed by a
+non-whitespace unit is rejected. -/
+theorem trailing_rejected_container (d : Deps) (hd : DepsSafe d) (doc : JDoc) (hwf : WF d doc)
+    (hcont : doc.isContainer = true) (wsL wsR : Ws) (hL : AllWs wsL) (hR : AllWs wsR) (x : Nat) (t : List Nat)
+    (hx : isWs x = false) (hsz : (wsL ++ doc.print ++ wsR ++ x :: t).length < 2 ^ 32) :
+    parse d (wsL ++ doc.print ++ wsR ++ x :: t).toArray = .ok .undef :=
+  Qentem.Json.trailing_rejected d hd doc hwf wsL wsR hL hR x t hx
+    (Or.inl (by cases doc <;> simp_all [JDoc.isContainer, JDoc.isNum])) hsz
+
+/-- Every proper prefix of a valid array/object document (any nesting, any layout), with or
+without leading whitespace, is rejected. -/
+theorem prefix_rejected (d : Deps) (hd : DepsSafe d) (doc : JDoc) (hwf : WF d doc) (hts : TS d doc)
+    (hcont : doc.isContainer = true) (wsL : Ws) (hL : AllWs wsL) (k : Nat) (hk : k < doc.print.length)
+    (hsz : (wsL ++ doc.print.take k).length < 2 ^ 32) :
+    parse d (wsL ++ doc.print.take k).toArray = .ok .undef :=
+  Qentem.Json.prefix_rejected_container d hd doc hwf hts hcont wsL hL k hk hsz
+
+/-- The same for every document that is not a bare string or numeral (so the keywords too).  The
+two excluded shapes are genuinely different: a proper prefix of a numeral can be a numeral, and a
+bare top-level string without its closing quote is accepted by the code (recorded finding
+`toplevel-unterminated-string`). -/
+theorem prefix_rejected_nontoken (d : Deps) (hd : DepsSafe d) (doc : JDoc) (hwf : WF d doc) (hts : TS d doc)
+    (hnt : doc.isToken = false) (wsL : Ws) (hL : AllWs wsL) (k : Nat) (hk : k < doc.print.length)
+    (hsz : (wsL ++ doc.print.take k).length < 2 ^ 32) :
+    parse d (wsL ++ doc.print.take k).toArray = .ok .undef :=
+  Qentem.Json.prefix_rejected d hd doc hwf hts hnt wsL hL k hk hsz
+
+/-- The mechanism inside a document: a value whose text is cut by the end of the buffer makes its
+sub-parse end exactly at the end of the buffer, so the enclosing loop fails. -/
+theorem cut_value_ends_at_end (d : Deps) (doc : JDoc) (c : Array Nat) (fuel o : Nat) (r : JVal × Nat)
+    (hsz : c.size < 2 ^ 32) (hwf : WF d doc) (hts : TS d doc) (hcut : Cut c o doc.print)
+    (h : parseValue d c fuel o = .ok r) : r.2 = c.size ∧ (doc.isToken = false → r.1 = .undef) :=
+  parseValue_cut d doc c fuel o r hsz hwf hts hcut h
+
+/-! Truncation contracts discharged for the linked sub-routines (`jsonDeps w`, any width). -/
+
+theorem trunc_natural (w d1 : Nat) (xs : List Nat) (h1 : Qentem.StrToNum.isNonZeroDigit d1 = true)
+    (hxs : Qentem.StrToNum.AllDigits xs) (hv : Qentem.StrToNum.decVal (d1 :: xs) < 2 ^ 64) :
+    NumTrunc (jsonDeps w) (d1 :: xs) := numTrunc_natural w d1 xs h1 hxs hv
+
+theorem trunc_negative (w d1 : Nat) (xs : List Nat) (h1 : Qentem.StrToNum.isNonZeroDigit d1 = true)
+    (hxs : Qentem.StrToNum.AllDigits xs) (hv : Qentem.StrToNum.decVal (d1 :: xs) ≤ 2 ^ 63) :
+    NumTrunc (jsonDeps w) (45 :: d1 :: xs) := numTrunc_negative w d1 xs h1 hxs hv
+
+theorem trunc_zero (w : Nat) : NumTrunc (jsonDeps w) [48] := numTrunc_zero w
+
+/-- every RFC 8259 string body (plain units of any width, the eight short escapes, `\uXXXX`,
+surrogate pairs) cut anywhere before its closing quote -/
+theorem trunc_string_body (w : Nat) (ts : List Qentem.Unicode.Tok) (hok : ∀ t ∈ ts, t.ok = true) :
+    StrTrunc (jsonDeps w) (ts.flatMap Qentem.Unicode.Tok.src) := strTrunc_tokens w ts hok
+
+/-- Documents over the concrete token classes (`Conc w`: keywords, decimal integers in the 64-bit
+range, token-sequence strings and member names, RFC whitespace) meet every hypothesis. -/
+theorem concrete_wf_ts (w : Nat) (doc : JDoc) (h : Conc w doc) : WF (jsonDeps w) doc ∧ TS (jsonDeps w) doc :=
+  conc_wft w doc h
+
+/-- No hypothesis about sub-routines left: the parser as linked rejects every proper prefix of
+every array/object document over the concrete token classes. -/
+theorem prefix_rejected_concrete (w : Nat) (doc : JDoc) (h : Conc w doc) (hcont : doc.isContainer = true)
+    (wsL : Ws) (hL : AllWs wsL) (k : Nat) (hk : k < doc.print.length)
+    (hsz : (wsL ++ doc.print.take k).length < 2 ^ 32) :
+    parse (jsonDeps w) (wsL ++ doc.print.take k).toArray = .ok .undef :=
+  Qentem.Json.prefix_rejected_container (jsonDeps w) (jsonDeps_safe w) doc (conc_wft w doc h).1 (conc_wft w doc h).2
+    hcont wsL hL k hk hsz
+
+/-- … and rejects every such document followed by a non-whitespace unit. -/
+theorem trailing_rejected_concrete (w : Nat) (doc : JDoc) (h : Conc w doc) (hcont : doc.isContainer = true)
+    (wsL wsR : Ws) (hL : AllWs wsL) (hR : AllWs wsR) (x : Nat) (t : List Nat) (hx : isWs x = false)
+    (hsz : (wsL ++ doc.print ++ wsR ++ x :: t).length < 2 ^ 32) :
+    parse (jsonDeps w) (wsL ++ doc.print ++ wsR ++ x :: t).toArray = .ok .undef :=
+  trailing_rejected_container (jsonDeps w) (jsonDeps_safe w) doc (conc_wft w doc h).1 hcont wsL wsR hL hR x t hx hsz
+
+open Qentem.Unicode in
+/-- Non-vacuity: `{ "a\n":[-12, 0 ,true],\n"":{"k":[]}\t}` — nested, with whitespace, an escape in
+a member name, an empty name, negative / zero numerals, an empty array — is a `Conc` container, so
+both concrete theorems apply to it (here at width 1). -/
+example : Conc 1 (.obj [32]
+    [([], [97, 92, 110], [97, 10], [], [32],
+        .arr [] [([], .num [45, 49, 50] .integer (2 ^ 64 - 12), []), ([32], .num [48] .natural 0, [32]), ([], .tru, [])], []),
+     ([10], [], [], [], [], .obj [] [([], [107], [107], [], [], .arr [] [], [])], [9])]) ∧
+    (JDoc.obj [32]
+    [([], [97, 92, 110], [97, 10], [], [32],
+        .arr [] [([], .num [45, 49, 50] .integer (2 ^ 64 - 12), []), ([32], .num [48] .natural 0, [32]), ([], .tru, [])], []),
+     ([10], [], [], [], [], .obj [] [([], [107], [107], [], [], .arr [] [], [])], [9])]).isContainer = true := by
+  refine ⟨⟨by simp [AllWs, isWs], ⟨by simp [AllWs], ⟨[.plain 97, .simple 110], by decide, rfl, by decide⟩, by simp [AllWs],
+    by simp [AllWs, isWs], ?_, by simp [AllWs], ?_⟩⟩, rfl⟩
+  · refine ⟨by simp [AllWs], ⟨by simp [AllWs], ?_, by simp [AllWs],
+      ⟨by simp [AllWs, isWs], IntTok.zero, by simp [AllWs, isWs], ⟨by simp [AllWs], trivial, by simp [AllWs], trivial⟩⟩⟩⟩
+    have := IntTok.negative 49 [50] (by decide) (by intro x hx; simp at hx; subst hx; decide) (by decide)
+    simpa [Conc, Qentem.StrToNum.decVal] using this
+  · refine ⟨by simp [AllWs, isWs], ⟨[], by simp, rfl, rfl⟩, by simp [AllWs], by simp [AllWs], ?_, by simp [AllWs, isWs], trivial⟩
+    exact ⟨by simp [AllWs], ⟨by simp [AllWs], ⟨[.plain 107], by decide, rfl, rfl⟩, by simp [AllWs], by simp [AllWs],
+      ⟨by simp [AllWs], trivial⟩, by simp [AllWs], trivial⟩⟩
+
+/-- Non-vacuity of the abstract theorems: keyword/array documents are well-formed and
+truncation-safe for any sub-routines (no string or numeral occurs). -/
+example (d : Deps) : WF d (.arr [32] [([], .tru, [10]), ([9], .arr [] [], []), ([], .null, [])]) ∧
+    TS d (.arr [32] [([], .tru, [10]), ([9], .arr [] [], []), ([], .null, [])]) := by
+  simp [WF, WFItems, TS, TSItems, AllWs, isWs]
+
+def isUndefResult : M JVal → Bool
+  | .ok .undef => true
+  | _ => false
+
+/-- Test (closed instances, by evaluation — not part of the proof): the parser as linked on two
+proper prefixes and one trailing-garbage variant of `[true,{"a":-1}]`, and on the document. -/
+example : isUndefResult (parse (jsonDeps 1) [91,116,114,117,101,44,123,34,97,34,58,45,49,125].toArray) = true := by decide +kernel
+example : isUndefResult (parse (jsonDeps 1) [91,116,114,117,101,44,123,34,97,34,58,45].toArray) = true := by decide +kernel
+example : isUndefResult (parse (jsonDeps 1) [91,116,114,117,101,44,123,34,97,34,58,45,49,125,93,93].toArray) = true := by decide +kernel
+example : isUndefResult (parse (jsonDeps 1) [91,116,114,117,101,44,123,34,97,34,58,45,49,125,93].toArray) = false := by decide +kernel
 
 end Qentem.Props.C07
